@@ -407,7 +407,12 @@ def threads_round(ctx, rng, idx, nthreads, state, inject):
     injected = [0]
     try:
         texts = texts_for(rng, 3)
-        refs = [canon.digest(parser.parse(t, bypass_cache=True)) for t in texts]
+        # one of the concurrent texts has a syntax error (its call must return None, and it must not disturb the others)
+        texts.append(texts[0].replace(";", "", 1) + "\nmodel Unfinished Real x\n")
+        refs = []
+        for t in texts:
+            tr = parser.parse(t, bypass_cache=True)
+            refs.append(None if tr is None else canon.digest(tr))
         if state == FOLDER_ABSENT:
             folder = os.path.join(folder, "not", "yet", "there")
         db = prepare_db(parser, folder, state, texts, rng)
@@ -430,11 +435,13 @@ def threads_round(ctx, rng, idx, nthreads, state, inject):
         def worker(i):
             hub.register(i)
             barrier.wait()
-            for k in range(2):
-                j = (i + k) % 3
+            for k in range(6):
+                j = (i + k) % 4
+                # every call is a cache miss (a distinct trailing comment does not change the tree), so that real
+                # parses of valid and of broken texts overlap
                 try:
-                    t = parser.parse(texts[j], model_cache_folder=Path(folder))
-                    r = ("ok", canon.digest(t) == refs[j])
+                    t = parser.parse(texts[j] + "\n// thread %d call %d\n" % (i, k), model_cache_folder=Path(folder))
+                    r = ("ok", (None if t is None else canon.digest(t)) == refs[j])
                 except BaseException as e:
                     r = ("exc", type(e).__name__, str(e)[:200])
                 with lock:
@@ -487,7 +494,7 @@ def threads_round(ctx, rng, idx, nthreads, state, inject):
 
 def threads(ctx, k):
     rng = ctx.rng
-    rounds = 8 if ctx.quick() else 200
+    rounds = 12 if ctx.quick() else 200
     nsh = max(1, ctx.nshards - ctx.controlled_shards)
     for r in range(rounds):
         if r % nsh != k or ctx.out_of_time():
